@@ -14,7 +14,8 @@ from ..oracles import snapshot, snap_diff, decode_array_dir, DecodeError
 from .arrayhist import Viol
 
 FILLFUNCS = ['ident', 'twice', 'mod3', 'neg', 'lastaxis', 'const', 'sq']
-REJECT = ['bool', 'str', 'object', 'datetime64', 'timedelta64', 'structured', 'bytes', 'boollist', 'strlist']
+REJECT = ['bool', 'str', 'object', 'datetime64', 'timedelta64', 'structured', 'bytes', 'boollist', 'strlist',
+          'longdouble', 'clongdouble', 'overwrite_longdouble']
 
 
 def fillfunc(name, trail):
@@ -309,17 +310,27 @@ class Creation(Engine):
             'timedelta64': np.array([1, 2], dtype='timedelta64[s]'),
             'structured': np.zeros(2, dtype=[('a', '<i4'), ('b', '<f8')]), 'bytes': np.array([b'a', b'bc']),
             'boollist': [True, False, True], 'strlist': ['x', 'y'],
+            'longdouble': np.array([1.5, 2.5], dtype=np.longdouble), 'clongdouble': np.array([1 + 2j], dtype=np.clongdouble),
+            'overwrite_longdouble': np.array([1.5, 2.5], dtype=np.longdouble),
         }[what]
+        if what in ('longdouble', 'clongdouble', 'overwrite_longdouble') and obj.dtype.name in D.NUMTYPES:
+            st['probes']['longdouble_is_a_supported_type_here'] = 1
+            return
         path = os.path.join(parent, 'rej.darr')
+        okw = {}
+        if what == 'overwrite_longdouble':
+            # a valid array already lives at the path: a rejected overwrite must leave it untouched
+            darr.asarray(path, np.arange(4.), metadata={'keep': 1})
+            okw = {'overwrite': True}
         pre = snapshot(parent)
         via = sc['via']
         try:
             if via == 'create_array' and hasattr(obj, 'dtype'):
-                darr.create_array(path, shape=(3,), dtype=obj.dtype)
+                darr.create_array(path, shape=(3,), dtype=obj.dtype, **okw)
             elif via == 'iterator':
-                darr.asarray(path, (o for o in [obj, obj]))
+                darr.asarray(path, (o for o in [obj, obj]), **okw)
             else:
-                darr.asarray(path, obj)
+                darr.asarray(path, obj, **okw)
         except TypeError:
             pass
         except Exception as e:
